@@ -46,35 +46,54 @@ type vbSchemaAttrs struct {
 	addFClass          int
 }
 
-func vbNondetSchemaAttrs() *vbSchemaAttrs {
+// vbNondetSchemaAttrs: concrete defaults everywhere except the focused attribute group, which is symbolic
+// (0 file, 1 field type, 2 field cardinality, 3 field number / names / oneof / jstype, 4 message ranges / names /
+// option, 5 enum, 6 service / method, 7 extension). Focusing keeps the path count a sum instead of a product.
+const vbFocusGroups = 8
+
+func vbNondetSchemaAttrs(focus int) *vbSchemaAttrs {
 	maxTag := bufprotosource.MessageRangeInclusiveMax
-	a := &vbSchemaAttrs{}
-	a.pkg = vbNondetLetter()
-	a.strOpt = vbNondetLetter()
-	a.boolOpt = verifNondetBool()
-	a.syntax = verifNondetInt(1, 4)
-	a.optFor = verifNondetChoice(3) + 1
-	a.fNum = verifNondetInt(1, maxTag)
-	a.xNum = verifNondetInt(1, maxTag)
-	a.vNum = verifNondetInt(vbTagLo, vbTagHi)
-	a.fName, a.fJSON, a.vName = vbNondetLetter(), vbNondetLetter(), vbNondetLetter()
-	a.fKind = verifNondetInt(1, 18)
-	a.fDelimited = verifNondetBool()
-	a.fClass = verifNondetInt(1, 5)
-	a.fMapEntry = verifNondetBool()
-	a.fInOneof, a.fSynthetic = verifNondetBool(), verifNondetBool()
-	a.fJSType = verifNondetChoice(3)
-	a.resS, a.resE = verifNondetInt(1, maxTag), verifNondetInt(1, maxTag)
-	verifAssume(a.resS <= a.resE)
-	a.extS, a.extE = verifNondetInt(1, maxTag), verifNondetInt(1, maxTag)
-	verifAssume(a.extS <= a.extE)
-	a.eResS, a.eResE = verifNondetInt(vbTagLo, vbTagHi), verifNondetInt(vbTagLo, vbTagHi)
-	verifAssume(a.eResS <= a.eResE)
-	a.resName, a.eResName = vbNondetLetter(), vbNondetLetter()
-	a.noStdDA = verifNondetBool()
-	a.in, a.out = vbNondetLetter(), vbNondetLetter()
-	a.cStream, a.sStream = verifNondetBool(), verifNondetBool()
-	a.idem = verifNondetChoice(3)
+	a := &vbSchemaAttrs{pkg: "p", strOpt: "s", syntax: 3, optFor: 1, fNum: 1, xNum: 100, vNum: 0, fName: "f", fJSON: "f", vName: "V",
+		fKind: 5, fClass: 2, resS: 10, resE: 12, extS: 100, extE: 200, eResS: 5, eResE: 6, resName: "r", eResName: "R", in: "i", out: "o"}
+	switch focus {
+	case 0:
+		a.pkg = vbNondetLetter()
+		a.strOpt = vbNondetLetter()
+		a.boolOpt = verifNondetBool()
+		a.syntax = verifNondetInt(1, 4)
+		a.optFor = verifNondetChoice(3) + 1
+	case 1:
+		a.fKind = verifNondetInt(1, 18)
+		a.fDelimited = verifNondetBool()
+	case 2:
+		a.fClass = verifNondetInt(1, 5)
+		a.fMapEntry = verifNondetBool()
+	case 3:
+		a.fNum = verifNondetInt(1, maxTag)
+		a.fName, a.fJSON = vbNondetLetter(), vbNondetLetter()
+		a.fInOneof, a.fSynthetic = verifNondetBool(), verifNondetBool()
+		a.fKind = 3 // int64, so that jstype matters
+		a.fJSType = verifNondetChoice(3)
+	case 4:
+		a.resS, a.resE = verifNondetInt(1, maxTag), verifNondetInt(1, maxTag)
+		verifAssume(a.resS <= a.resE)
+		a.extS, a.extE = verifNondetInt(1, maxTag), verifNondetInt(1, maxTag)
+		verifAssume(a.extS <= a.extE)
+		a.resName = vbNondetLetter()
+		a.noStdDA = verifNondetBool()
+	case 5:
+		a.vNum = verifNondetInt(vbTagLo, vbTagHi)
+		a.vName = vbNondetLetter()
+		a.eResS, a.eResE = verifNondetInt(vbTagLo, vbTagHi), verifNondetInt(vbTagLo, vbTagHi)
+		verifAssume(a.eResS <= a.eResE)
+		a.eResName = vbNondetLetter()
+	case 6:
+		a.in, a.out = vbNondetLetter(), vbNondetLetter()
+		a.cStream, a.sStream = verifNondetBool(), verifNondetBool()
+		a.idem = verifNondetChoice(3)
+	case 7:
+		a.xNum = verifNondetInt(1, maxTag)
+	}
 	return a
 }
 
@@ -289,7 +308,7 @@ func vbRunAll(prev, cur *vbSchema) (int, bool) {
 // VerifLemma_C04A_Identity: a schema with arbitrary attribute values compared with an attribute-equal copy of itself:
 // none of the 56 handlers reports anything or fails.
 func VerifLemma_C04A_Identity() {
-	a := vbNondetSchemaAttrs()
+	a := vbNondetSchemaAttrs(verifNondetChoice(vbFocusGroups))
 	prev, cur := vbBuildSchema(a, false), vbBuildSchema(a, false)
 	n, failed := vbRunAll(prev, cur)
 	verifCover("all handlers ran on identical schemas")
@@ -301,7 +320,7 @@ func VerifLemma_C04A_Identity() {
 // service, RPC, oneof, non-required field with fresh number and name, enum value with fresh number and name,
 // reserved ranges and names, extension range): none of the handlers reports anything.
 func VerifLemma_C04B_Additive() {
-	a := vbNondetSchemaAttrs()
+	a := vbNondetSchemaAttrs(verifNondetChoice(vbFocusGroups))
 	vbNondetAdditions(a)
 	prev, cur := vbBuildSchema(a, false), vbBuildSchema(a, true)
 	n, failed := vbRunAll(prev, cur)
